@@ -206,6 +206,7 @@ struct Value {
     }
 
     Value &operator=(ValueType type) noexcept {
+        reset();
         setType(type);
         return *this;
     }
